@@ -255,7 +255,8 @@ func cmdCheckC19(tier string, seed uint64, runs int) int {
 		"violations":  nviol,
 	}
 	js, _ := json.MarshalIndent(ev, "", " ")
-	_ = os.WriteFile(filepath.Join(verifDir, "evidence", "C19.json"), js, 0o644)
+	_ = os.MkdirAll(evidenceDir(), 0o755)
+	_ = os.WriteFile(filepath.Join(evidenceDir(), "C19.json"), js, 0o644)
 	fmt.Printf("vsim: C19 %s: %d cases (%d distinct), %d requests over %d entry points, %d violation(s), %d known, %.1fs\n", tier, evals, distinct, requests, len(driven), nviol, len(knownSeen), wall)
 	if nviol > 0 {
 		return 1
